@@ -38,7 +38,7 @@ func init() {
 				a.Inconclusive("slot enumeration incomplete: %d of %d (h, index) slots had an accepted honest proof", a.Counters["slots_covered"], want)
 			}
 		},
-		Require: []string{"honest_builder_accepted", "honest_generate_accepted", "reference_vectors_accepted", "mutations_evaluated", "mutations_rejected_by_impl", "placements_evaluated", "odd_nibble_cases", "slots_covered", "impl_accept", "impl_reject", "model_accept", "model_reject"},
+		Require: []string{"honest_builder_accepted", "honest_generate_accepted", "reference_vectors_accepted", "mutations_evaluated", "mutations_rejected_by_impl", "placements_evaluated", "odd_nibble_cases", "off_by_one_nibble_cases", "off_by_one_nibble:stray-digit", "off_by_one_nibble:shared-digit", "off_by_one_nibble:marker-early", "slots_covered", "impl_accept", "impl_reject", "model_accept", "model_reject"},
 		Assumptions: []string{"crypto/sha256 is correct",
 			"the byte-level rule is the one in the property statement: exactly one marker fa be 6d 6d in the script BYTES of the first coinbase input, the byte-reversed aux merkle root directly after it, then >= 8 bytes: size (LE) == 2^len(aux branch) and nonce (LE) with index == LCG(nonce, chainID) mod size; the legacy no-marker form is not accepted (the implementation does not accept it either)",
 			"aux branch length stays < 32 (longer branches crash GetExpectedIndex: property C03)"},
@@ -530,6 +530,7 @@ func runC10(c *kit.Ctx) {
 	}
 
 	// ---- (3) random proofs with mutations and placements
+	rn := c.Rand("c10-nibble") // own stream: the older classes keep their case sequence
 	n := c.N(2200, 48000)
 	for i := 0; i < n; i++ {
 		h := r.Intn(c10MaxH + 1)
@@ -541,6 +542,7 @@ func runC10(c *kit.Ctx) {
 		c10Mutate(c, r, eval, p, lay, bh, chainID, 3)
 		c10Place(c, r, eval, p, lay, bh, chainID)
 		c10OddNibble(c, r, eval, bh, chainID, h)
+		c10OffByOneNibble(c, rn, eval, bh, chainID, h)
 	}
 }
 
@@ -871,4 +873,92 @@ var c10RefVectors = []struct {
 	{"7926398947f332fe534b15c628ff0cd9dc6f7d3ea59c74801dc758ac65428e64", "02000000010000000000000000000000000000000000000000000000000000000000000000ffffffff4b0313ee0904a880495b742f4254432e434f4d2ffabe6d6d9581ba0156314f1e92fd03430c6e4428a32bb3f1b9dc627102498e5cfbf26261020000004204cb9a010f32a00601000000000000ffffffff0200000000000000001976a914c0174e89bd93eacd1d5a1af4ba1802d412afc08688ac0000000000000000266a24aa21a9ede2f61c3f71d1defd3fa999dfa36953755c690689799962b48bebd836974e8cf90000000014acac4ee8fdd8ca7e0b587b35fce8c996c70aefdf24c333038bdba7af531266000000000001ccc205f0e1cb435f50cc2f63edd53186b414fcb22b719da8c59eab066cf30bdb0000000000000020d1061d1e456cae488c063838b64c4911ce256549afadfc6a4736643359141b01551e4d94f9e8b6b03eec92bb6de1e478a0e913e5f733f5884857a7c2b965f53ca880495bffff7f20a880495b", 6},
 	{"21187623de86cd62b4ce211cd8a74e88f80eda6cc12f279bf3cdb5c0d9539a9d", "02000000010000000000000000000000000000000000000000000000000000000000000000ffffffff4b039aff0904db044a5b742f4254432e434f4d2ffabe6d6d35ecfc5f5ca2971449ee78b7d810f280de7e3e7c407e3c0162ef8692df350ef8020000004204cb9a011fde202e00000000000000ffffffff0200000000000000001976a914c0174e89bd93eacd1d5a1af4ba1802d412afc08688ac0000000000000000266a24aa21a9ede2f61c3f71d1defd3fa999dfa36953755c690689799962b48bebd836974e8cf9000000001d1879510258c5186e39cfcde4539c88686854b1ca640681dd38ed9527e635600000000000015f2f03802d61504f12e25d4b679b881ddb374cc04f240b6eb765d887679fb6360000000000000020a9f32bdb09d7777f3fa308fcd221e531393441f50e7f8b2d4ef63b2c3440940ec866338e7674b07d6a92269317f09f6c0fdb60ce7052e0211133e0015727ebb2db044a5bffff7f20db044a5b", 6},
 	{"a4c78cf0c73256f8607e85baaa72874408525d7c5488a4cc69ad6930d1186d2c", "02000000010000000000000000000000000000000000000000000000000000000000000000ffffffff4a02050e04a4e2515b742f4254432e434f4d2ffabe6d6da4c78cf0c73256f8607e85baaa72874408525d7c5488a4cc69ad6930d1186d2c01000000000000000108d7517400000000000000ffffffff0300e1f505000000001976a914c0174e89bd93eacd1d5a1af4ba1802d412afc08688ac0000000000000000266a24aa21a9ede2f61c3f71d1defd3fa999dfa36953755c690689799962b48bebd836974e8cf90000000000000000424063643337386238613335653764623466356636343562303833396130373635613661326637613064343338663565626432653638663036323633313832333034f90000000042cbe48afcac502073e24700fcb536d52737c1d7938ff859685e31558df685f800000000000000000000000000207f9ebb83cd305988685bbc7c8ee006ba6934f791708f37c1e4d913fd8b0c000070833a09a50ea430f421b89292925ca8499f0bb3c2a6f7bcc804eb8105ea4bbca7e2515b7182281ea7e2515b", 6},
+}
+
+// c10OffByOneNibble builds scripts in which marker and root are ONE HEX DIGIT
+// away from "root immediately after marker", i.e. layouts that only an offset
+// computation which loses the low bit of a hex offset (index/2) can take for
+// adjacent. Everything else is made to match (commitment ground, size/nonce
+// where such a computation would read them):
+//
+//	stray-digit   marker byte-aligned, one stray hex digit, then the root (root at an odd hex offset)
+//	shared-digit  marker at an odd hex offset, root byte-aligned at the following even offset: the
+//	              marker's last 'd' is the root's first digit (root ground to start with 'd')
+//	marker-early  root byte-aligned, marker at the odd hex offset one digit earlier than adjacent
+//	              (one stray digit between them)
+//
+// In none of them do the script BYTES contain a marker immediately followed by
+// the root, so the model rejects. One signature for the whole family.
+func c10OffByOneNibble(c *kit.Ctx, r *rand.Rand, eval func(c10Case) (bool, bool), bh c10Hash, chainID, h int) {
+	const class = "place:marker-root-off-by-one-nibble"
+	sizeLE := binary.LittleEndian.AppendUint32(nil, uint32(1)<<uint(h))
+	variant := []string{"stray-digit", "shared-digit", "marker-early"}[r.Intn(3)]
+	floorTail := r.Intn(3) != 0 // stray-digit only: size read at floor(odd/2) (shares a byte with the last root digit) or at the next whole byte
+	for try := 0; try < 600; try++ {
+		p := &c10Proof{TxVersion: 1, HdrVer: r.Uint32(), HdrTime: r.Uint32(), HdrNonce: r.Uint32()}
+		for i := 0; i < h; i++ {
+			p.AuxBranch = append(p.AuxBranch, c10RandHash(r))
+		}
+		if h == 0 {
+			bh = c10RandHash(r)
+		}
+		nonce := r.Uint32()
+		p.AuxIndex = c10Slot(nonce, chainID, h)
+		root := c10Rev(c10MerkleUp(c10Rev(bh), p.AuxBranch, p.AuxIndex))
+		s := c10Filler(r, r.Intn(20))
+		switch variant {
+		case "stray-digit":
+			if floorTail && root[31]&0x0f != sizeLE[0]>>4 {
+				continue // grind: the last root digit is the high digit of the first size byte
+			}
+			s = append(s, c10Marker...)
+			nib := []byte{byte(r.Intn(16))}
+			for _, b := range root {
+				nib = append(nib, b>>4, b&0xf)
+			}
+			if floorTail {
+				nib = append(nib, sizeLE[0]&0xf)
+			} else {
+				nib = append(nib, byte(r.Intn(16)))
+			}
+			for i := 0; i+1 < len(nib); i += 2 {
+				s = append(s, nib[i]<<4|nib[i+1])
+			}
+			if floorTail {
+				s = append(s, sizeLE[1:]...)
+			} else {
+				s = append(s, sizeLE...)
+			}
+		case "shared-digit":
+			if root[0]>>4 != 0xd {
+				continue // grind: the root starts with the marker's last digit
+			}
+			s = append(s, byte(r.Intn(16))<<4|0xf, 0xab, 0xe6, 0xd6)
+			s = append(s, root[:]...)
+			s = append(s, sizeLE...)
+		default: // marker-early
+			s = append(s, byte(r.Intn(16))<<4|0xf, 0xab, 0xe6, 0xd6, 0xd0|byte(r.Intn(16)))
+			s = append(s, root[:]...)
+			s = append(s, sizeLE...)
+		}
+		s = binary.LittleEndian.AppendUint32(s, nonce)
+		s = append(s, c10Filler(r, r.Intn(16))...)
+		if n := bytes.Count(s, c10Marker); (variant == "stray-digit") != (n == 1) || n > 1 {
+			continue
+		}
+		if strings.Count(hex.EncodeToString(s), "fabe6d6d") != 1 {
+			continue
+		}
+		p.Ins = []c10In{{PrevIdx: 0xffffffff, Script: s, Sequence: 0xffffffff}}
+		for i, n := 0, r.Intn(4); i < n; i++ {
+			p.CbBranch = append(p.CbBranch, c10RandHash(r))
+		}
+		c10Reseal(p)
+		eval(c10Case{class: class, p: p, blockHash: bh, chainID: chainID})
+		c.Inc("off_by_one_nibble_cases")
+		c.Inc("off_by_one_nibble:" + variant)
+		c.Inc("placements_evaluated")
+		c.Inc(class)
+		return
+	}
 }
